@@ -56,9 +56,9 @@ func runHistories(r *lib.Report, rec *recorder, famIndex int) map[string]interfa
 			}
 		}
 	}
-	maxReplicas := 5
+	maxReplicas := 6
 	if r.Thorough() {
-		maxReplicas = 6
+		maxReplicas = 7
 	}
 	var starts []historyStart
 	for _, filter := range []string{"nil", "unordered", "ordered"} {
@@ -77,7 +77,14 @@ func runHistories(r *lib.Report, rec *recorder, famIndex int) map[string]interfa
 	}
 	var cases, labelledHistories int64
 	var sigMu sync.Mutex
-	reached := map[string]int{}
+	type reachedSig struct {
+		Occurrences int    `json:"occurrences"`
+		History     int    `json:"-"`
+		Step        int    `json:"-"`
+		FirstCase   Case   `json:"first_case"`
+		ReachedBy   string `json:"reached_by"`
+	}
+	reached := map[string]*reachedSig{}
 	lib.ParallelFor(len(starts), func(hi int) {
 		h := starts[hi]
 		pods := make([]PodSpec, h.replicas)
@@ -111,7 +118,14 @@ func runHistories(r *lib.Report, rec *recorder, famIndex int) map[string]interfa
 			if len(res.verdicts) > 0 {
 				sigMu.Lock()
 				for _, v := range res.verdicts {
-					reached[v.Sig]++
+					rs := reached[v.Sig]
+					if rs == nil {
+						rs = &reachedSig{History: hi, Step: step, FirstCase: c, ReachedBy: note()}
+						reached[v.Sig] = rs
+					} else if hi < rs.History || (hi == rs.History && step < rs.Step) {
+						rs.History, rs.Step, rs.FirstCase, rs.ReachedBy = hi, step, c, note()
+					}
+					rs.Occurrences++
 				}
 				sigMu.Unlock()
 			}
